@@ -220,8 +220,10 @@ func c02Jobs(tier string) []string {
 	}
 	bases := []string{"Wmin", "W0"}
 	// tiny deep/fan worlds: every operation up to 8 fields
-	add(EnumWorlds([]string{"Wdeep", "Wfan"}, 0, 0), "e0p", "plainK8")
-	add(EnumWorlds([]string{"Wdeep", "Wfan"}, 0, 0), "s1c", "plainK7")
+	add(EnumWorlds([]string{"Wdeep"}, 0, 0), "e0p", "plainK8")
+	add(EnumWorlds([]string{"Wdeep"}, 0, 0), "s1c", "plainK8")
+	add(EnumWorlds([]string{"Wfan"}, 0, 0), "e0p", "plainK6")
+	add(EnumWorlds([]string{"Wfan"}, 0, 0), "s1c", "plainK5")
 	if tier == "quick" {
 		add(EnumWorlds(bases, 0, 0), "e0p", "plainK5")
 		add(EnumWorlds(bases, 0, 0), "e0p", "decK4")
